@@ -36,7 +36,16 @@ def gen_history(rng, tier):
             m.pop(ops[-1][1], None)
         elif r < 0.9:
             k = rng.choice(sorted(m))
-            p = k[: rng.randint(1, len(k))] if rng.random() < 0.8 else k + b"\x00"
+            r3 = rng.random()
+            if r3 < 0.6:
+                p = k[: rng.randint(1, len(k))]
+            elif r3 < 0.75:
+                p = k + b"\x00"
+            else:
+                # a prefix that leaves the stored key in its last byte (by one bit, or arbitrarily): usually matches nothing
+                p = bytearray(k[: rng.randint(1, len(k))])
+                p[-1] ^= rng.choice([1, 2, 0x10, 0x80, rng.randrange(1, 256)])
+                p = bytes(p)
             ops.append(("delete_subtrie", p))
             # the dict is only advisory here; the oracle decides from the observed outcome
             m = {kk: vv for kk, vv in m.items() if not kk.startswith(p)} if not any(p.startswith(kk) and p != kk for kk in m) else m
